@@ -77,6 +77,40 @@ def step (_ : Unit) (op impl : String) : Unit × DrvOut :=
         | _ => "FAIL unparsable implementation answer"
       ((), { model, spec })
     | none => ((), { model := "bad-op" })
+  | ["ac3", site, rate, pts, n] =>
+    -- round 4: frame i of an AC-3 unit must carry the exact conversion of (unit pts + i·1536) to 90 kHz
+    match rate.toInt?, pts.toInt?, n.toNat? with
+    | some rate, some pts, some n =>
+      let copyName := "protocols_" ++ site ++ "_multiplyAndDivide"
+      let model := match Gen.copies3.find? (·.1 == copyName) with
+        | some c => " ".intercalate ((List.range n).map fun i =>
+            match c.2.2 (pts + (i : Int) * 1536) 90000 rate with | some r => s!"{r}" | none => "panic")
+        | none => "-"
+      let spec :=
+        match (words impl).mapM (·.toInt?) with
+        | none => "FAIL no frame timestamps"
+        | some got =>
+          if got.length ≠ n then s!"FAIL {got.length} frames written instead of {n}"
+          else
+            match ((List.range n).zip got).find? (fun (i, g) => g ≠ exact (pts + (i : Int) * 1536) 90000 rate) with
+            | some (i, g) => s!"FAIL frame {i}: PTS {g}, exact conversion of the frame timestamp is {exact (pts + (i : Int) * 1536) 90000 rate}"
+            | none => "ok"
+      ((), { model, spec })
+    | _, _, _ => ((), { model := "bad-op" })
+  | "mp" :: ts :: _start :: durs =>
+    -- round 4: the segment duration is the exact conversion of the elapsed ticks, whatever the start offset
+    match ts.toInt?, durs.mapM (·.toInt?) with
+    | some ts, some ds =>
+      let ticks := ds.foldl (· + ·) 0
+      let model := match Gen.copies2.find? (·.1 == "playback_durationMp4ToGo") with
+        | some c => (match c.2.2.2 ticks ts with | some r => s!"{r}" | none => "panic")
+        | none => "-"
+      let e := exact ticks nsPerSec ts
+      let spec := match impl.toInt? with
+        | some r => if r = e then "ok" else s!"FAIL segment duration {r} ns, exact conversion of {ticks} elapsed ticks is {e}"
+        | none => "FAIL no duration"
+      ((), { model, spec })
+    | _, _ => ((), { model := "bad-op" })
   | ["rh", dur, ts] =>
     -- playback.segmentFMP4ReadHeader: impl "<duration ns>" | "err" (time scale 0 is rejected by the code)
     match dur.toInt?, ts.toInt? with
